@@ -7,9 +7,12 @@ import (
 )
 
 type Universe struct {
-	Eco        eco.Eco
-	Strs       []string
-	Vers       []eco.Ver
+	Eco  eco.Eco
+	Strs []string
+	Vers []eco.Ver
+	// Vers0 holds the value of a FIRST parse of each string; Vers comes from a second,
+	// independent parse (a parser that memoises and then damages its memo shows on re-parsing)
+	Vers0      []eco.Ver
 	Candidates int
 	Panics     []string
 }
@@ -32,8 +35,13 @@ func Versions(e eco.Eco, level int) *Universe {
 			}
 			continue
 		}
+		v2, err2 := eco.SafeParse(e, s)
+		if err2 != nil {
+			v2 = v
+		}
 		u.Strs = append(u.Strs, s)
-		u.Vers = append(u.Vers, v)
+		u.Vers0 = append(u.Vers0, v)
+		u.Vers = append(u.Vers, v2)
 	}
 	gen.S.States += int64(len(cands))
 	cache[key] = u
